@@ -1,2 +1,227 @@
-(* C01 — stub while building *)
-From Coq Require Import ZArith.
+(* C01 — A point is mapped to the one grid voxel that contains it.
+   Only statements, `exact` proofs and Print Assumptions live here.  Models: theories/F64.v, PointF.v (bit-exact binary64 model of
+   shape/point.go with Go's math.Tan/Cos/Log as an oracle).  Proofs: theories/PtBridge.v FF.v XF.v YF.v PtMerc.v PointProofs.v SetLatProofs.v.
+   Vocabulary: fval f = the real value of a float, ffin f = it is finite; X_exact / Y_exact / F_exact = the three exact floors of the
+   property text; x_f / y_f / f_f = what the code computes; points_api / points_sid_api = the two exported functions. *)
+From Coq Require Import ZArith Reals List String Floats.
+From Flocq Require Import Core.
+From SID Require Import Base Str Ids F64 ExactRef PointF Voxel PtBridge FF XF YF PtMerc PointCheck PointProofs SetLatProofs.
+Import ListNotations.
+Open Scope Z_scope.
+
+(* ================= (1) list structure, error cases, spatial-ID form ================= *)
+(* success: the zooms are in 0..35 and the output is, point by point and in the input order, the printed voxel of each point *)
+Theorem C01_list_one_id_per_point_in_order : forall tanf cosf logf l h v ids,
+  points_api tanf cosf logf false l h v = Ok ids ->
+  (0 <= h <= 35 /\ 0 <= v <= 35) /\
+  exists r, Forall2 (fun p i => point_eid tanf cosf logf p h v = Some i) l r /\ ids = map print_eid r.
+Proof. exact points_api_ok. Qed.
+Print Assumptions C01_list_one_id_per_point_in_order.
+
+Theorem C01_list_length_preserved : forall tanf cosf logf l h v ids,
+  points_api tanf cosf logf false l h v = Ok ids -> List.length ids = List.length l.
+Proof. exact points_api_length. Qed.
+Print Assumptions C01_list_length_preserved.
+
+Theorem C01_list_order_preserved : forall tanf cosf logf l h v ids n p,
+  points_api tanf cosf logf false l h v = Ok ids -> nth_error l n = Some p ->
+  exists i, point_eid tanf cosf logf p h v = Some i /\ nth_error ids n = Some (print_eid i).
+Proof. exact points_api_nth. Qed.
+Print Assumptions C01_list_order_preserved.
+
+(* the spatial-ID form is the same voxel with h = v = z, written z/f/x/y, same length and order *)
+Theorem C01_spatial_id_form_is_same_voxel : forall tanf cosf logf l z sids,
+  points_sid_api tanf cosf logf false l z = Ok sids ->
+  0 <= z <= 35 /\
+  exists r, Forall2 (fun p i => point_eid tanf cosf logf p z z = Some i) l r /\
+            sids = map (fun i => join [print (eh i); print (ef i); print (ex i); print (ey i)]) r /\
+            points_api tanf cosf logf false l z z = Ok (map print_eid r).
+Proof. exact points_sid_api_ok. Qed.
+Print Assumptions C01_spatial_id_form_is_same_voxel.
+
+(* error cases: a zoom outside 0..35 or a nil point gives an error, for both functions *)
+Theorem C01_bad_zoom_is_error : forall tanf cosf logf has_nil l h v,
+  ~ (0 <= h <= 35 /\ 0 <= v <= 35) -> points_api tanf cosf logf has_nil l h v = Err.
+Proof. exact points_api_bad_zoom. Qed.
+Print Assumptions C01_bad_zoom_is_error.
+Theorem C01_nil_point_is_error : forall tanf cosf logf l h v, points_api tanf cosf logf true l h v = Err.
+Proof. exact points_api_nil_point. Qed.
+Print Assumptions C01_nil_point_is_error.
+Theorem C01_spatial_id_bad_zoom_is_error : forall tanf cosf logf has_nil l z,
+  ~ 0 <= z <= 35 -> points_sid_api tanf cosf logf has_nil l z = Err.
+Proof. exact points_sid_api_bad_zoom. Qed.
+Print Assumptions C01_spatial_id_bad_zoom_is_error.
+Theorem C01_spatial_id_nil_point_is_error : forall tanf cosf logf l z, points_sid_api tanf cosf logf true l z = Err.
+Proof. exact points_sid_api_nil_point. Qed.
+Print Assumptions C01_spatial_id_nil_point_is_error.
+
+(* ================= (2) altitude: floor, not truncation; exact outside the denormal class ================= *)
+(* alt_underflow alt v :=  alt <> 0 and |alt| < 2^(-997-v)  (the quotient alt / 2^(25-v) is a denormal number) *)
+Theorem C01_f_is_exact_floor_partial : forall alt v, 0 <= v <= 35 ->
+  ffin alt = true -> (Rabs (fval alt) <= bpow radix2 40)%R -> ~ alt_underflow alt v ->
+  f_f alt v = Some (Zfloor (fval alt * bpow radix2 v / bpow radix2 25)).
+Proof. exact f_f_exact. Qed.
+Print Assumptions C01_f_is_exact_floor_partial.
+
+(* on the class the statement is false of the faithful model (D12): alt = -2^-1074 at vertical zoom 0 gives 0, the floor is -1 *)
+Theorem C01_alt_underflow_refuted :
+  exists alt v, 0 <= v <= 35 /\ ffin alt = true /\ (Rabs (fval alt) <= bpow radix2 25)%R /\ alt_underflow alt v /\
+                f_f alt v = Some 0 /\ F_exact v (fval alt) = -1.
+Proof. exact f_f_underflow_refuted. Qed.
+Print Assumptions C01_alt_underflow_refuted.
+
+(* the class is decided on the input by the boolean that the dispatch entry evaluates *)
+Theorem C01_alt_underflow_class_decided : forall alt v, 0 <= v <= 35 -> ffin alt = true ->
+  alt_underflow_b alt v = true <-> alt_underflow alt v.
+Proof. exact alt_underflow_b_spec. Qed.
+Print Assumptions C01_alt_underflow_class_decided.
+
+(* inside the documented range the exact index is a valid vertical index *)
+Theorem C01_f_in_range : forall v alt, 0 <= v -> (- bpow radix2 25 <= alt < bpow radix2 25)%R -> - 2 ^ v <= F_exact v alt < 2 ^ v.
+Proof. exact F_exact_range. Qed.
+Print Assumptions C01_f_in_range.
+
+(* ================= (3) longitude ================= *)
+(* always a valid column for |lon| <= 180 (after fix 242c5f8: including the float just below 180) *)
+Theorem C01_x_always_in_range : forall lon h, 0 <= h <= 35 -> ffin lon = true -> (-180 <= fval lon <= 180)%R ->
+  exists x, x_f lon h = Some x /\ 0 <= x < 2 ^ h.
+Proof. exact x_f_range. Qed.
+Print Assumptions C01_x_always_in_range.
+
+(* longitude 180 is treated as -180 *)
+Theorem C01_x_180_is_minus_180 : forall h, 0 <= h <= 35 -> x_f 180%float h = Some 0 /\ x_f (-180)%float h = Some 0.
+Proof. exact x_f_180_is_minus_180. Qed.
+Print Assumptions C01_x_180_is_minus_180.
+
+(* monotone in the longitude (180 read as -180) *)
+Theorem C01_x_monotone : forall a b h xa xb, 0 <= h <= 35 ->
+  ffin a = true -> ffin b = true -> (-180 <= fval a <= 180)%R -> (-180 <= fval b <= 180)%R ->
+  (lon_fold (fval a) <= lon_fold (fval b))%R -> x_f a h = Some xa -> x_f b h = Some xb -> xa <= xb.
+Proof. exact x_f_monotone. Qed.
+Print Assumptions C01_x_monotone.
+
+(* exact whenever the two roundings (lon + 180, then / 360) are exact ... *)
+Theorem C01_x_exact_if_roundings_exact : forall lon h, 0 <= h <= 35 -> ffin lon = true ->
+  (-180 <= fval lon <= 180)%R -> roundings_exact (fval lon) -> x_f lon h = Some (X_exact h (fval lon)).
+Proof. exact x_f_exact_if_roundings_exact. Qed.
+Print Assumptions C01_x_exact_if_roundings_exact.
+(* ... in particular on every column boundary k*360/2^j - 180, j <= 44: the point belongs to the column that starts there *)
+Theorem C01_x_exact_on_column_boundaries : forall lon h j k, 0 <= h <= 35 -> 0 <= j <= 44 -> 0 <= k < 2 ^ j -> ffin lon = true ->
+  fval lon = (IZR k * 360 / bpow radix2 j - 180)%R -> x_f lon h = Some (Zfloor (IZR k * bpow radix2 (h - j))).
+Proof. exact x_f_on_boundary. Qed.
+Print Assumptions C01_x_exact_on_column_boundaries.
+
+(* partial theorem: x is the exact floor unless the exact position is within 2^(h-52) columns of a column boundary
+   (x_rounding l h := floor(2^h u(l) - 2^(h-52)) <> floor(2^h u(l) + 2^(h-52)), u = (lon+180)/360 with 180 folded) *)
+Theorem C01_x_is_exact_floor_partial : forall lon h, 0 <= h <= 35 -> ffin lon = true -> (-180 <= fval lon <= 180)%R ->
+  ~ x_rounding (fval lon) h -> x_f lon h = Some (X_exact h (fval lon)).
+Proof. exact x_f_exact_outside_class. Qed.
+Print Assumptions C01_x_is_exact_floor_partial.
+(* and never more than one column away *)
+Theorem C01_x_within_one_column : forall lon h x, 0 <= h <= 35 -> ffin lon = true -> (-180 <= fval lon <= 180)%R ->
+  x_f lon h = Some x -> X_exact h (fval lon) - 1 <= x <= X_exact h (fval lon) + 1.
+Proof. exact x_f_within_one. Qed.
+Print Assumptions C01_x_within_one_column.
+
+(* on the class the statement is false of the faithful model (D13): lon = float64(-1e-20), h = 3 gives column 4, the point is in column 3 *)
+Theorem C01_x_rounding_refuted :
+  exists lon h, 0 <= h <= 35 /\ ffin lon = true /\ (-180 <= fval lon <= 180)%R /\ x_rounding (fval lon) h /\
+                x_f lon h = Some 4 /\ X_exact h (fval lon) = 3.
+Proof. exact x_f_rounding_refuted. Qed.
+Print Assumptions C01_x_rounding_refuted.
+
+(* ================= (4) latitude ================= *)
+(* binary64 side, for every answer of Go's math.Tan/Cos/Log: the rows of one latitude are nested across zooms and in range as
+   soon as the zoom-35 row is (m = the float 1 - Log(..)/Pi of the code; |m| <= 4 excludes only non-finite / absurd oracle answers) *)
+Theorem C01_y_rows_nested_and_in_range : forall tanf cosf logf lat r,
+  ffin (merc_m tanf cosf logf lat) = true -> (Rabs (fval (merc_m tanf cosf logf lat)) <= 4)%R ->
+  y_f tanf cosf logf lat 35 = Some r -> 0 <= r < 2 ^ 35 ->
+  forall h, 0 <= h <= 35 -> y_f tanf cosf logf lat h = Some (anc (35 - h) r) /\ 0 <= anc (35 - h) r < 2 ^ h.
+Proof. exact y_f_nested. Qed.
+Print Assumptions C01_y_rows_nested_and_in_range.
+
+Theorem C01_y_is_floor_of_scaled_m : forall tanf cosf logf lat h, 0 <= h <= 35 ->
+  ffin (merc_m tanf cosf logf lat) = true -> (0 <= fval (merc_m tanf cosf logf lat) < 2)%R ->
+  y_f tanf cosf logf lat h = Some (Zfloor (bpow radix2 h * (fval (merc_m tanf cosf logf lat) / 2))).
+Proof. exact y_f_inrange. Qed.
+Print Assumptions C01_y_is_floor_of_scaled_m.
+
+(* real-number side: the Mercator fraction (1 - asinh(tan lat)/pi)/2, written as the code writes it, lies strictly inside (0,1)
+   on |lat| <= 85.0511287798 (lat_limit = 85.05112877980001 covers the decimal and its binary64), hence 0 <= Y < 2^h *)
+Theorem C01_mercator_fraction_strictly_inside : forall lat, (Rabs lat <= lat_limit)%R ->
+  (2 / 10 ^ 13 < wfrac lat < 1 - 2 / 10 ^ 13)%R.
+Proof. exact wfrac_range. Qed.
+Print Assumptions C01_mercator_fraction_strictly_inside.
+Theorem C01_Y_in_range : forall h lat, 0 <= h -> (Rabs lat <= lat_limit)%R -> 0 <= Y_exact h lat < 2 ^ h.
+Proof. exact Y_exact_range. Qed.
+Print Assumptions C01_Y_in_range.
+Theorem C01_asinh_form_is_log_form : forall phi, (- (PI / 2) < phi < PI / 2)%R -> arcsinh (tan phi) = ln (tan phi + 1 / cos phi).
+Proof. exact asinh_tan. Qed.
+Print Assumptions C01_asinh_form_is_log_form.
+
+(* the box of (X, Y, F) is the unique voxel of zooms (h, v) containing the point, it is a valid ID on the documented domain,
+   and the voxels of one point at different zooms are nested *)
+Theorem C01_voxel_is_the_unique_container : forall h v lon lat alt i, eh i = h -> ev i = v ->
+  (inR i (norm_pt lon lat alt) <-> i = voxel_of h v lon lat alt).
+Proof. exact voxel_of_unique. Qed.
+Print Assumptions C01_voxel_is_the_unique_container.
+Theorem C01_voxel_is_valid : forall h v lon lat alt, 0 <= h <= 35 -> 0 <= v <= 35 ->
+  (-180 <= lon <= 180)%R -> (Rabs lat <= lat_limit)%R -> (- bpow radix2 25 <= alt < bpow radix2 25)%R ->
+  valid (voxel_of h v lon lat alt).
+Proof. exact voxel_of_valid. Qed.
+Print Assumptions C01_voxel_is_valid.
+Theorem C01_voxels_of_a_point_are_nested : forall h h' v v' lon lat alt, 0 <= h <= h' -> 0 <= v <= v' ->
+  ex (voxel_of h v lon lat alt) = anc (h' - h) (ex (voxel_of h' v' lon lat alt)) /\
+  ey (voxel_of h v lon lat alt) = anc (h' - h) (ey (voxel_of h' v' lon lat alt)) /\
+  ef (voxel_of h v lon lat alt) = anc (v' - v) (ef (voxel_of h' v' lon lat alt)).
+Proof. exact voxel_of_nested. Qed.
+Print Assumptions C01_voxels_of_a_point_are_nested.
+
+(* ================= the per-point theorem of the code (partial: outside the two classes; y relative to the float m) ================= *)
+Theorem C01_point_voxel_partial : forall tanf cosf logf p h v, 0 <= h <= 35 -> 0 <= v <= 35 -> pt_domain p ->
+  ~ x_rounding (fval (plon p)) h -> ~ alt_underflow (palt p) v ->
+  ffin (merc_m tanf cosf logf (plat p)) = true -> (0 <= fval (merc_m tanf cosf logf (plat p)) < 2)%R ->
+  point_eid tanf cosf logf p h v =
+    Some (mk h (X_exact h (fval (plon p))) (Zfloor (bpow radix2 h * (fval (merc_m tanf cosf logf (plat p)) / 2))) v (F_exact v (fval (palt p)))).
+Proof. exact point_eid_partial. Qed.
+Print Assumptions C01_point_voxel_partial.
+
+(* ================= the run-time checker decides the specification ================= *)
+Theorem C01_checker_sound : forall ps h v o, 0 <= h ->
+  Forall (fun p => ffin (plon p) = true /\ ffin (palt p) = true) ps ->
+  check_point_ids ps h v o = true <-> Forall2 (fun p s => point_id_spec p h v s) ps o.
+Proof. exact check_point_ids_sound. Qed.
+Print Assumptions C01_checker_sound.
+(* its rational references are the exact floors *)
+Theorem C01_reference_x_is_exact : forall lon h, 0 <= h -> ffin lon = true -> exact_x lon h = Some (X_exact h (fval lon)).
+Proof. exact exact_x_spec. Qed.
+Print Assumptions C01_reference_x_is_exact.
+Theorem C01_reference_f_is_exact : forall alt v, ffin alt = true -> exact_f alt v = Some (F_exact v (fval alt)).
+Proof. exact exact_f_spec. Qed.
+Print Assumptions C01_reference_f_is_exact.
+
+(* ================= NewPoint / SetLat: the stored latitude (finding class setlat_inexact, D20) ================= *)
+(* cut lat s := |lat| - |s|.  The documented behaviour is 0 <= cut < 1e-10 ("cut toward zero by less than 1e-10 degrees") *)
+Theorem C01_setlat_cut_partial : forall lat, ffin lat = true -> (Rabs (fval lat) <= 90)%R ->
+  (- bpow radix2 (-46) <= Rabs (fval lat) - Rabs (fval (setlat_trunc lat)) <= 1 / 10 ^ 10 + bpow radix2 (-46))%R.
+Proof. exact setlat_cut_bounds. Qed.
+Print Assumptions C01_setlat_cut_partial.
+Theorem C01_setlat_inexact_refuted :
+  exists lat, ffin lat = true /\ (Rabs (fval lat) <= 85)%R /\
+              ~ (0 <= Rabs (fval lat) - Rabs (fval (setlat_trunc lat)) < 1 / 10 ^ 10)%R.
+Proof. exact setlat_inexact_refuted. Qed.
+Print Assumptions C01_setlat_inexact_refuted.
+Theorem C01_setlat_checker_sound : forall lat s, ffin lat = true -> ffin s = true ->
+  exact_cut_ok lat s = true <-> (0 <= Rabs (fval lat) - Rabs (fval s) < 1 / 10 ^ 10)%R.
+Proof. exact exact_cut_ok_spec. Qed.
+Print Assumptions C01_setlat_checker_sound.
+
+(* ================= non-vacuity ================= *)
+(* half a metre below ground is layer -1 (truncation would say 0); -2^25 and -1 m are exact multiples of the cell height: layer -1;
+   Tokyo station's longitude 139.7671; the float just below 180 (D11, fixed by 242c5f8) stays in the last column *)
+Example C01_nonvacuous_f_below_ground : f_f (-0.5)%float 25 = Some (-1) /\ f_f (-33554432)%float 0 = Some (-1) /\ f_f (-1)%float 25 = Some (-1).
+Proof. vm_compute. auto. Qed.
+Example C01_nonvacuous_x : x_f 0x1.1788c154c985fp+7%float 25 = Some 29804453 /\ x_f 0x1.67fffffffffffp+7%float 0 = Some 0 /\ x_f 0x1.67fffffffffffp+7%float 35 = Some (2 ^ 35 - 1).
+Proof. vm_compute. auto. Qed.
+Example C01_nonvacuous_domain : exists p, pt_domain p /\ ~ x_rounding (fval (plon p)) 0 /\ ~ alt_underflow (palt p) 25.
+Proof. exact pt_domain_example. Qed.
